@@ -2009,6 +2009,157 @@ Section Scan.
   End Fair.
 
 
+  (* ------------- firing a waker is total (selective strategy): every sub-waker ever handed out names a slot that exists, and a parent
+        waker has been registered by the time any handle exists - the two situations in which InlineWaker::wake would panic
+        (index out of bounds in the readiness bit set; `expect("parent_waker not available")`) are unreachable ------------- *)
+  Section FireTotal.
+    Definition okh (n: nat) (h: wk) : Prop := match h with WSub s => s < n | WPar _ => True end.
+    Definition FT (w: world) := Forall (Forall (okh (N w))) (handed w) /\ (parent w = None -> Forall (fun l => l = []) (handed w)).
+    Hypothesis mutate_FT : forall w m a sc, Inv w -> FT w -> FT (mutate w m a sc).
+    Lemma okh_mono n n' h : n <= n' -> okh n h -> okh n' h.
+    Proof. destruct h; cbn; auto. intros; lia. Qed.
+    Lemma FT_frame w w' : N w <= N w' -> handed w' = handed w -> (parent w' = None -> parent w = None) -> FT w -> FT w'.
+    Proof.
+      intros Hn Hh Hp [A B]. split; rewrite Hh; [|auto].
+      eapply Forall_impl; [|exact A]. intros l Hl. eapply Forall_impl; [|exact Hl]. intros h. apply okh_mono. exact Hn.
+    Qed.
+    Lemma do_fire_X w j : cs (do_fire w j) = cs w /\ handed (do_fire w j) = handed w /\ parent (do_fire w j) = parent w.
+    Proof. unfold do_fire. destruct (j <? N w); auto. destruct (nth j (bits w) true); auto. Qed.
+    Lemma fire_handle_X w c k : cs (fire_handle w c k) = cs w /\ handed (fire_handle w c k) = handed w /\ parent (fire_handle w c k) = parent w.
+    Proof.
+      unfold fire_handle. destruct (nth_error (nth c (handed w) []) k) as [[slot|pid]|]; auto.
+      destruct (do_fire_X (emit w [EF c k]) slot) as (A & B & C). auto.
+    Qed.
+    Lemma fires_of_X w me hs : cs (fires_of w me hs) = cs w /\ handed (fires_of w me hs) = handed w /\ parent (fires_of w me hs) = parent w.
+    Proof.
+      revert w. induction hs as [|h r IH]; intros w; cbn [fires_of]; auto.
+      destruct (match h with HSelf => (me, length (nth me (handed w) []) - 1) | HOf c k => (c, k) end) as [c k].
+      destruct (fire_handle_X w c k) as (A & B & C). destruct (IH (fire_handle w c k)) as (A' & B' & C'). repeat split; congruence.
+    Qed.
+    Lemma Forall_upd' {A} (P: A -> Prop) (l: list A) i x : Forall P l -> P x -> Forall P (upd l i x).
+    Proof. revert i. induction l as [|a l IH]; intros [|i] Hl Hx; cbn; auto; inversion Hl; subst; constructor; auto. Qed.
+    Lemma Forall_nth_d' {A} (P: A -> Prop) (l: list A) i d : Forall P l -> P d -> P (nth i l d).
+    Proof. revert i. induction l as [|a l IH]; intros [|i] Hl Hd; cbn; auto; inversion Hl; subst; auto. Qed.
+
+    (* inside a poll: a parent waker is registered, the number of slots does not change *)
+    Definition FTp (n: nat) (w: world) := FT w /\ parent w <> None /\ N w = n.
+    Definition vres_FT (n: nat) (r: vres) : Prop := match r with VCont w | VPending w | VReady w _ | VAbort w => FTp n w end.
+    Lemma poll_child_FT n w i pid : sel w = true -> i < n -> FTp n w -> vres_FT n (poll_child w i pid).
+    Proof.
+      intros Hs Hi ([A B] & Hp & Hn). unfold poll_child. rewrite Hs. destruct (pop w (member (cs w) i)) as [stp sc'].
+      match goal with |- context[fires_of ?W _ _] => set (w1 := W) end.
+      assert (H1 : FTp n w1).
+      { unfold FTp, FT, w1, N. cbn. fold (N w). split; [split|split; [exact Hp|exact Hn]].
+        - apply Forall_upd'; auto. apply Forall_app. split; [apply Forall_nth_d'; auto|]. constructor; [cbn; lia|constructor].
+        - intros E. contradiction. }
+      destruct (fires_of_X w1 (member (cs w) i) (fires stp)) as (X1 & X2 & X3).
+      set (w2 := fires_of w1 (member (cs w) i) (fires stp)) in *.
+      assert (H2 : FTp n w2).
+      { destruct H1 as (F1 & P1 & N1). split; [|split; [rewrite X3; exact P1|unfold N; rewrite X1; exact N1]].
+        apply (FT_frame w1); auto; [unfold N; rewrite X1; lia|rewrite X3; auto]. }
+      pose proof (handle_slots (cs w2) i (answer stp)) as Hsl.
+      destruct (handle (cs w2) i (answer stp)) as [[s' a] eh]. cbn [fst] in Hsl.
+      destruct H2 as (F2 & P2 & N2).
+      assert (H3 : forall w', cs w' = s' -> handed w' = handed w2 -> parent w' = parent w2 -> FTp n w').
+      { intros w' E1 E2 E3. split; [|split; [rewrite E3; exact P2|unfold N; rewrite E1, Hsl; exact N2]].
+        apply (FT_frame w2); auto; [unfold N; rewrite E1, Hsl; lia|rewrite E3; auto]. }
+      destruct a as [|r o|]; cbn [vres_FT].
+      - apply H3; reflexivity.
+      - apply H3; unfold apply_rearm; cbn [sel set_cs emit]; destruct (sel w2); try reflexivity; destruct r; reflexivity.
+      - split; [|split; [exact P2|exact N2]]. apply (FT_frame w2); auto.
+    Qed.
+    Lemma clear_bit_X w i : cs (fst (clear_bit w i)) = cs w /\ handed (fst (clear_bit w i)) = handed w /\ parent (fst (clear_bit w i)) = parent w /\ sel (fst (clear_bit w i)) = sel w.
+    Proof. unfold clear_bit. destruct (sel w) eqn:Es; [destruct (nth i (bits w) false)|]; cbn; rewrite ?Es; repeat split; reflexivity. Qed.
+    Lemma FTp_clear n w i : FTp n w -> FTp n (fst (clear_bit w i)).
+    Proof.
+      intros (F & P & Hn). destruct (clear_bit_X w i) as (A & B & C & D).
+      split; [|split; [rewrite C; exact P|unfold N; rewrite A; exact Hn]]. apply (FT_frame w); auto; [unfold N; rewrite A; lia|rewrite C; auto].
+    Qed.
+    Lemma visit_FT n w i pid : sel w = true -> i < n -> FTp n w -> vres_FT n (visit w i pid) /\
+      match visit w i pid with VCont w' | VPending w' | VReady w' _ | VAbort w' => sel w' = true end.
+    Proof.
+      intros Hs Hi H. unfold visit. destruct (any_per_iter && negb (any_ready w)); [split; [exact H|exact Hs]|].
+      pose proof (FTp_clear n w i H) as Hc. destruct (clear_bit_X w i) as (_ & _ & _ & Hsel). rewrite Hs in Hsel.
+      assert (Hpc : forall w1, sel w1 = true -> FTp n w1 -> vres_FT n (poll_child w1 i pid) /\
+                match poll_child w1 i pid with VCont w' | VPending w' | VReady w' _ | VAbort w' => sel w' = true end).
+      { intros w1 Hs1 H1. split; [apply poll_child_FT; auto|]. unfold poll_child. rewrite Hs1.
+        destruct (pop w1 (member (cs w1) i)) as [stp sc'].
+        match goal with |- context[fires_of ?W _ _] => set (wa := W) end.
+        assert (Ha : sel wa = true) by exact Hs1.
+        assert (Hb : sel (fires_of wa (member (cs w1) i) (fires stp)) = true) by (rewrite (proj1 (fires_of_H wa (member (cs w1) i) (fires stp))); exact Ha).
+        destruct (handle _ i (answer stp)) as [[s' a] eh]. destruct a as [|r o|]; auto.
+        unfold apply_rearm. cbn [sel set_cs emit]. rewrite Hb. destruct r; exact Hb. }
+      destruct clear_first.
+      - destruct (clear_bit w i) as [w1 was] eqn:Ec. cbn [fst] in Hc, Hsel. destruct was; [|split; [exact H|exact Hs]].
+        destruct (awaited (cs w) i); [apply Hpc; auto|split; [exact Hc|exact Hsel]].
+      - destruct (awaited (cs w) i); [|split; [exact H|exact Hs]].
+        destruct (clear_bit w i) as [w1 was] eqn:Ec. cbn [fst] in Hc, Hsel. destruct was; [apply Hpc; auto|split; [exact H|exact Hs]].
+    Qed.
+    Lemma scan_FT n is : forall w pid, sel w = true -> Forall (fun i => i < n) is -> FTp n w -> vres_FT n (scan w is pid).
+    Proof.
+      induction is as [|i rest IH]; intros w pid Hs Hb H; cbn [scan]; [exact H|]. inversion Hb; subst.
+      destruct (visit_FT n w i pid Hs H2 H) as [Hv Hs']. destruct (visit w i pid); cbn [vres_FT] in Hv; auto.
+    Qed.
+    Lemma FT_poll w pid np : Inv w -> FT w -> FT (poll w pid np).
+    Proof.
+      intros HI H. pose proof HI as ((Hwf & HQ & _) & _). unfold poll.
+      assert (Hmf : forall w' o, FT w' -> FT (mark_final w' o)) by (intros w' o X; unfold mark_final; destruct (final o); exact X).
+      destruct (pre_exit (cs w)); [apply Hmf; exact H|].
+      set (w0 := begin_poll w pid np).
+      assert (H0 : FTp (N w) w0) by (split; [split; [exact (proj1 H)|cbn; discriminate]|split; [cbn; discriminate|reflexivity]]).
+      destruct (pre_any (cs w0) && negb (any_ready w0)); [exact (proj1 H0)|].
+      destruct (order (cs w0)) as [[is s1]|] eqn:Eo; [|exact (proj1 H0)].
+      assert (H0' : FTp (N w) (set_cs w0 s1)).
+      { destruct H0 as (F & P & Hn). pose proof (order_slots _ _ _ Eo) as Es.
+        split; [|split; [exact P|unfold N; cbn [cs set_cs]; rewrite Es; exact Hn]].
+        apply (FT_frame w0); auto. unfold N; cbn [cs set_cs]. rewrite Es. lia. }
+      assert (Hb : Forall (fun i => i < N w) is).
+      { apply Forall_forall. intros i Hi. exact (order_bound _ _ _ HQ Eo i Hi). }
+      pose proof (scan_FT (N w) is (set_cs w0 s1) pid (wf_sel _ Hwf) Hb H0') as Hs.
+      destruct (scan (set_cs w0 s1) is pid) as [w1|w1|w1 o|w1]; cbn [vres_FT] in Hs; destruct Hs as (F1 & P1 & N1).
+      - pose proof (finish_slots (cs w1)) as Ef. destruct (finish (cs w1)) as [s2 [x|]]; cbn [fst] in Ef; [apply Hmf|];
+          (apply (FT_frame w1); auto; unfold N; cbn; rewrite Ef; lia).
+      - exact F1.
+      - apply Hmf. apply (FT_frame w1); auto. unfold N; cbn. rewrite after_slots. lia.
+      - exact F1.
+    Qed.
+    Lemma FT_run ops : forall w, Inv w -> FT w -> FT (run_ops w ops).
+    Proof.
+      induction ops as [|o r IH]; intros w HI H; cbn; auto. apply IH; [apply Inv_step; exact HI|]. destruct o; cbn [step_op].
+      - destruct (finished w || dropped w); auto. apply FT_poll; auto.
+      - destruct (finished w || dropped w); auto. apply FT_poll; auto.
+      - destruct (fire_handle_X (emit w [EO]) c k) as (A & B & C). apply (FT_frame w); auto; [unfold N; rewrite A; cbn; lia|rewrite C; auto].
+      - destruct (dropped w); exact H.
+      - destruct (dropped w); auto.
+    Qed.
+    (* the code's InlineWaker::wake on the handle member c got at its k-th poll: would it panic? *)
+    Definition fire_panics (w: world) (c k: nat) : bool :=
+      match nth_error (nth c (handed w) []) k with
+      | Some (WSub slot) => negb (slot <? N w) || match parent w with Some _ => false | None => true end
+      | _ => false
+      end.
+    Theorem fire_total w0 ops c k : Inv w0 -> FT w0 -> fire_panics (run_ops w0 ops) c k = false.
+    Proof.
+      intros HI H0. destruct (FT_run ops w0 HI H0) as [A B]. set (w := run_ops w0 ops) in *. unfold fire_panics.
+      destruct (nth_error (nth c (handed w) []) k) as [[slot|pid]|] eqn:E; auto.
+      assert (Hin : In (WSub slot) (nth c (handed w) [])) by (eapply nth_error_In; eauto).
+      assert (Hc : Forall (okh (N w)) (nth c (handed w) [])) by (apply Forall_nth_d'; auto).
+      rewrite Forall_forall in Hc. specialize (Hc _ Hin). cbn in Hc. apply Nat.ltb_lt in Hc. rewrite Hc. cbn.
+      destruct (parent w) eqn:Ep; auto. specialize (B eq_refl).
+      assert (Hn : nth c (handed w) [] = []) by (apply (Forall_nth_d' (fun l => l = [])); auto). rewrite Hn in Hin. contradiction.
+    Qed.
+    Lemma FT_grow w s' m : slots s' = N w + m -> FT w -> FT (w_grow w s' m).
+    Proof. intros Es H. apply (FT_frame w); auto. unfold N at 2; cbn. lia. Qed.
+    Lemma FT_vacate w s' k : slots s' = N w -> FT w -> FT (w_vacate w s' k).
+    Proof. intros Es H. apply (FT_frame w); auto. unfold N at 2; cbn. lia. Qed.
+    Lemma FT_occupy w s' k sc : slots s' = N w -> FT w -> FT (w_occupy w s' k sc).
+    Proof.
+      intros Es [A B]. split; cbn [handed parent w_occupy].
+      - apply Forall_app. split; [|constructor; [constructor|constructor]]. unfold N at 1; cbn. rewrite Es. exact A.
+      - intros E. apply Forall_app. split; [auto|constructor; [reflexivity|constructor]].
+    Qed.
+  End FireTotal.
+
   Definition Sig w i := aw w i = true /\ polled w i = true /\ fired w i = true.
 
   Theorem C01_generic w0 ops i : Inv w0 -> let w := run_ops w0 ops in
